@@ -94,8 +94,14 @@ func NewBuilder(opts ...Option) *Builder { return &Builder{N: NewNode(opts...)} 
 // Child executes txs on top of parent (whose StateHash must be set) and returns the completed block.
 // Transactions that fail with ExecErr are dropped, exactly as a producing node does.
 func (b *Builder) Child(parent *types.Block, txs []*types.Transaction, bits uint32, blockTime int64) (*types.Block, error) {
+	return b.ChildAt(parent, txs, bits, blockTime, parent.Height+1)
+}
+
+// ChildAt is Child with an explicit (possibly forged) height in the header: tx root and state root are those of executing
+// the body on the parent's state at that height.
+func (b *Builder) ChildAt(parent *types.Block, txs []*types.Transaction, bits uint32, blockTime int64, height int64) (*types.Block, error) {
 	cfg := b.N.Cfg
-	blk := &types.Block{Height: parent.Height + 1, ParentHash: parent.Hash(cfg), BlockTime: blockTime, Difficulty: bits}
+	blk := &types.Block{Height: height, ParentHash: parent.Hash(cfg), BlockTime: blockTime, Difficulty: bits}
 	for _, tx := range txs {
 		blk.Txs = append(blk.Txs, types.Clone(tx).(*types.Transaction))
 	}
